@@ -2,10 +2,11 @@
 package main
 
 import (
+	"rscheck/driver"
 	"rscheck/rules/c01"
 	"rscheck/rules/c02"
-	"rscheck/driver"
 	"rscheck/rules/c09"
+	"rscheck/rules/c12"
 	"rscheck/rules/c18"
 	"rscheck/rules/c19"
 )
@@ -15,6 +16,7 @@ func main() {
 		c01.Def,
 		c02.Def,
 		c09.Def,
+		c12.Def,
 		c18.Def,
 		c19.Def,
 	})
